@@ -49,6 +49,7 @@ func main() {
 	tests := flag.Bool("tests", false, "load test variants too")
 	outdir := flag.String("outdir", "", "directory for violation reports (default <verif>/out)")
 	mutants := flag.String("mutants", "", "mutant-corpus result file to include in the evidence (thorough)")
+	benign := flag.String("benign", "", "JSON produced by benign.sh, copied into the evidence")
 	flag.Parse()
 	defer func() {
 		// a rule that panics has met code outside what it understands: the property is undecided, not held
@@ -165,6 +166,15 @@ func main() {
 		r.Infof("helper normalisation: %s", n)
 	}
 	f(r, *verif)
+	if *benign != "" {
+		if b, err := os.ReadFile(*benign); err == nil {
+			var bres map[string]any
+			if json.Unmarshal(b, &bres) == nil {
+				r.Extra["benign_corpus"] = bres
+				r.Infof("behaviour-preserving corpus: %v of %v refactorings leave this check silent (evidence only)", bres["silent"], bres["total"])
+			}
+		}
+	}
 	if *mutants != "" {
 		if b, err := os.ReadFile(*mutants); err == nil {
 			var mres map[string]any
